@@ -59,7 +59,11 @@ def assume(cond) -> None:
 
 
 def check(cond, msg='') -> None:
+    """Assert.  `msg` may be a callable: messages that mention symbolic values MUST be lazy,
+    otherwise formatting them realises (forks on) every value."""
     if not cond:
+        if callable(msg):
+            msg = msg()
         raise Fail(msg if isinstance(msg, str) else repr(msg))
 
 
